@@ -165,12 +165,28 @@ def _is_static_data(par) -> bool:
 
 
 # ------------------------------------------------------------------ R-C02-3
+def _local_defs(fn: ast.FunctionDef):
+    """name -> value for locals assigned exactly once by a plain assignment (used to see through temporaries)"""
+    defs, count = {}, {}
+    for n in ast.walk(fn):
+        if isinstance(n, ast.Assign) and len(n.targets) == 1 and isinstance(n.targets[0], ast.Name):
+            defs[n.targets[0].id] = n.value
+            count[n.targets[0].id] = count.get(n.targets[0].id, 0) + 1
+        elif isinstance(n, (ast.AugAssign,)) and isinstance(n.target, ast.Name):
+            count[n.target.id] = count.get(n.target.id, 0) + 2
+    return {k: v for k, v in defs.items() if count.get(k) == 1}
+
+
 def _per_row_loops(fn: ast.FunctionDef) -> List[ast.For]:
     out = []
+    defs = _local_defs(fn)
     for l in ast.walk(fn):
         if isinstance(l, ast.For) and isinstance(l.iter, ast.Call) and attr_chain(l.iter.func) == "range" and len(l.iter.args) == 1:
-            a = dump(l.iter.args[0])
-            if a in ("num_of_params", "max(1, len(params))", "max(len(params), 1)"):
+            arg = l.iter.args[0]
+            if isinstance(arg, ast.Name) and arg.id in defs:
+                arg = defs[arg.id]
+            a = dump(arg).replace(" ", "")
+            if a in ("max(1,len(params))", "max(len(params),1)"):
                 out.append(l)
     return out
 
@@ -606,22 +622,21 @@ def r8_allocation(repo: Repo, rep):
         fi = ci.methods.get("sample_random_uniform")
         if fi is None:
             continue
-        src_calls = [c for c in ast.walk(fi.node) if isinstance(c, ast.Call) and attr_chain(c.func) in ("torch.rand", "torch.ones", "torch.zeros") and c.args and isinstance(c.args[0], (ast.Tuple, ast.List))]
-        if not src_calls:
+        has_alloc = any(isinstance(c, ast.Call) and attr_chain(c.func) in ("torch.rand", "torch.ones", "torch.zeros") and c.args and isinstance(c.args[0], (ast.Tuple, ast.List)) for c in ast.walk(fi.node))
+        if not has_alloc:
             continue
         rep.saw(fi)
         bad = []
-        for c in src_calls:
-            el = c.args[0].elts
-            if len(el) != 3:
-                bad.append(dump(c)[:60])
-                continue
-            lead, mid = dump(el[0]), dump(el[1])
-            if lead not in ("num_of_params", "self.len_of_params(params)") or mid != "n":
-                bad.append(dump(c)[:60])
-        for node in ast.walk(fi.node):
-            if isinstance(node, ast.Assign) and dump(node.targets[0]) == "num_of_params" and dump(node.value) != "self.len_of_params(params)":
-                bad.append(dump(node))
+        for p in paths(fi.node):
+            for e in p.events:
+                if e.value is None:
+                    continue
+                for c in ast.walk(e.value):
+                    if isinstance(c, ast.Call) and attr_chain(c.func) in ("torch.rand", "torch.ones", "torch.zeros") and c.args and isinstance(c.args[0], (ast.Tuple, ast.List)):
+                        el = c.args[0].elts
+                        if len(el) != 3 or dump(el[0]) != "self.len_of_params(params)" or not (dump(el[1]) == "n" or "compute_n_from_density" in dump(el[1])):
+                            bad.append(dump(c)[:70])
+        bad = sorted(set(bad))
         rep.check(R, not bad, fi.site(), fi.fq, "allocations shaped (len_of_params(params), n, c)", str(bad[:2]), str(bad[:2]))
         for p in paths(fi.node):
             if p.ret is RAISE or p.ret is None:
